@@ -123,7 +123,7 @@ def job(j):
 
 # ------------------------------------------------------------------ through the transports
 
-def run_k(framing, c, fill, trail, ka):
+def run_k(framing, c, fill, trail, ka, host=None):
     world.reset()
     pl = (bytes([fill]) * (2 * c)) if fill is not None else bytes((i * 13 + 5) & 0xFF for i in range(2 * c))
 
@@ -135,7 +135,7 @@ def run_k(framing, c, fill, trail, ka):
         return [(D0, ('data', wire.aa55_resp('0186', pl)))]
     peer = PlanPeer(plan)
     loop = KLoop(peer)
-    p = make_protocol('tcp' if framing == 'tcp' else 'udp', 1, 0, ka)
+    p = make_protocol('tcp' if framing == 'tcp' else 'udp', 1, 0, ka, host=host)
     cmd = gp.Aa55ProtocolCommand("010600", "0186") if framing == 'aa55' else p.read_command(0x891C, c)
 
     async def main():
@@ -324,6 +324,16 @@ def run(tier, seed, rep):
         for key, cause in vio:
             rep.add(key, key.split('/')[0], dict(part='K', case=[case[0], case[1], case[2], case[3].hex(), case[4]]),
                     dict(cause=cause))
+        if nk % 5 == 0:
+            # the inverter's host is configured as a name / a non-canonical spelling (the kernel model resolves it; the
+            # source address of the answers is the resolved one)
+            for host in ('inverter.local', '10.0.2'):
+                vio, res = run_k(*case, host=host)
+                nk += 1
+                for key, cause in vio:
+                    rep.add(key + '/host-given-as-a-name', key.split('/')[0],
+                            dict(part='K', case=[case[0], case[1], case[2], case[3].hex(), case[4]], host=host),
+                            dict(cause=cause, host=host))
     for framing in ('rtu', 'tcp', 'aa55'):
         for kind in (('read', 'write', 'multi') if framing != 'aa55' else ('read',)):
             for ka in (False, True):
@@ -394,5 +404,5 @@ def replay(r):
         o = accept(cmd, bytes.fromhex(r['data']))
         return dict(outcome=o, violations=[] if o == 'accept' else [('conforming frame refused', o)])
     c = r['case']
-    vio, res = run_k(c[0], c[1], c[2], bytes.fromhex(c[3]), c[4])
+    vio, res = run_k(c[0], c[1], c[2], bytes.fromhex(c[3]), c[4], host=r.get('host'))
     return dict(result=[x.hex() if isinstance(x, bytes) else x for x in res], violations=vio)
